@@ -625,6 +625,14 @@ class Sim:
                     return Bytes(op["bytes"])
                 if op.get("indirect") and ty in ("&&str", "&&[u8]"):
                     return Bytes(op["bytes"])     # derefs of a Bytes value are identities
+                # arrays / slices of wider scalars: `&[char; 18]`, `[u16; 4]`, `&[u32]`
+                mm = re.match(r"^&?\[(char|u16|u32|u64|usize|i16|i32|i64)(; \d+)?\]$", ty)
+                if mm:
+                    w = {"char": 4, "u16": 2, "u32": 4, "u64": 8, "usize": 8, "i16": 2, "i32": 4, "i64": 8}[mm.group(1)]
+                    raw = bytes(op["bytes"])
+                    if len(raw) % w == 0:
+                        signed = mm.group(1).startswith("i")
+                        return Tup([int.from_bytes(raw[k:k + w], "little", signed=signed) for k in range(0, len(raw), w)])
                 # promoted constant range over a primitive integer type: `(b'0'..=b'7')`
                 inner = ty[1:] if ty.startswith("&") else ty
                 for pre, name in (("std::ops::RangeInclusive<", "range-incl"), ("std::ops::Range<", "range")):
@@ -1204,6 +1212,8 @@ class Sim:
 
     def _callee_tyenv(self, t, callee_fn):
         """Type parameters of the callee -> what the call site passes for them (through the caller's own bindings)."""
+        if callee_fn.kind == "closure":
+            return dict(self._tyenv[-1])      # a closure shares the type parameters of the function it is written in
         gens = callee_fn.d.get("generics")
         c = t.get("callee", {})
         subs = c.get("substs")
@@ -1593,6 +1603,8 @@ class Sim:
                 if 0 <= d[1] < len(items):
                     return ("value", Adt("std::option::Option", 1, [Ref(items, d[1], ())]))
                 return ("value", Adt("std::option::Option", 0, []))
+            if last == "contains" and len(d) == 2 and isinstance(d[1], int) and all(isinstance(x, int) for x in items):
+                return ("value", int(d[1] in items))
             if last in ("first", "last") and len(d) == 1:
                 if items:
                     return ("value", Adt("std::option::Option", 1, [Ref(items, 0 if last == "first" else len(items) - 1, ())]))
